@@ -345,6 +345,9 @@ type IsX struct {
 	AnyOtherRev string `json:"anyOtherRev"`
 }
 
+// B2S evaluates a predicate: "T", "F" or "P" (panic).
+func B2S(f func() bool) string { return b2s(f) }
+
 func b2s(f func() bool) (res string) {
 	defer func() {
 		if x := recover(); x != nil {
@@ -534,9 +537,10 @@ type Fmt struct {
 	BadFormattable []string  `json:"badFormattable"` // same through errors.Formattable
 	BadVerb        []string  `json:"badVerb"`        // other verbs: not fmt's %!verb(type) notation
 	BadVerbF       []string  `json:"badVerbF"`
-	GoSyntax       bool      `json:"goSyntax"` // %#v gives a non-empty dump
-	PV             *PVerbose `json:"pv"`       // %+v, direct
-	PVF            *PVerbose `json:"pvf"`      // %+v, through Formattable
+	GoSyntax       bool      `json:"goSyntax"`  // through Formattable: %#v gives a non-empty dump, also with the + flag
+	GoSyntaxD      bool      `json:"goSyntaxD"` // same, direct
+	PV             *PVerbose `json:"pv"`        // %+v, direct
+	PVF            *PVerbose `json:"pvf"`       // %+v, through Formattable
 }
 
 var entryRe = regexp.MustCompile(`^((?:  )*)(└─ )?Wraps: \((\d+)\)`)
@@ -659,6 +663,19 @@ func FmtOf(e error) *Fmt {
 	}
 	gs := sprintf("%#v", errors.Formattable(e))
 	f.GoSyntax = gs != "" && !strings.HasPrefix(gs, "%!") && !strings.HasPrefix(gs, "PANIC:")
+	// '#' selects the Go-syntax dump whatever the other flags ('+' included)
+	for _, spec := range []string{"%+#v", "%#+v", "% +#v"} {
+		if sprintf(spec, errors.Formattable(e)) != gs {
+			f.GoSyntax = false
+		}
+	}
+	gd := sprintf("%#v", e)
+	f.GoSyntaxD = gd != "" && !strings.HasPrefix(gd, "%!") && !strings.HasPrefix(gd, "PANIC:")
+	for _, spec := range []string{"%+#v", "%#+v"} {
+		if sprintf(spec, e) != gd {
+			f.GoSyntaxD = false
+		}
+	}
 	f.PV = parseVerbose(sprintf("%+v", e), text)
 	f.PVF = parseVerbose(sprintf("%+v", errors.Formattable(e)), text)
 	return f
